@@ -246,7 +246,7 @@ CLAIMS['C32'] = dict(
 
 CLAIMS['C33'] = dict(
     technique='static analysis: partial evaluation of the interpreter\'s character trie (multiComparePercent) on each constant %cmd% string with the token kept symbolic, '
-              'Python ast of tools/matchcompiler.py::_compileCmd and ::tokTypes, set inclusion of the eKeyword words in every keyword set of lib/keywords.cpp, comparison of the Token predicates / operators / constants of the two sides, pointer-advance accounting',
+              'Python ast of tools/matchcompiler.py::_compileCmd and ::tokTypes, set inclusion of the eKeyword words in every keyword set of lib/keywords.cpp, partial evaluation of Token::update_property_info on each operator string, comparison of the Token predicates / operators / constants of the two sides, pointer-advance accounting',
     text='Decides the agreement of the %command% vocabulary of the two matchers (a necessary condition): for each of the 15 commands in the match compiler\'s table the interpreter, '
          'specialised to that command, reaches a match, guards it with the same Token predicates, comparison operators and constants as the expression the match compiler emits '
          '(one tabled implied conjunct for %varid%), and advances the pattern pointer by exactly the length of the command; the commands the property names are in the table.',
@@ -256,7 +256,9 @@ CLAIMS['C33'] = dict(
 # rules added while triaging seeded changes and replayed defects (see DESIGN.md 8.4/8.5); appended to the decided text of each claim
 EXTRA = {
     'C33': 'R33.3: every literal word that tools/matchcompiler.py::tokTypes types eKeyword is a keyword (TokenList::isKeyword) under every C and C++ standard Keywords::getAll can return '
-           '(keyword sets of lib/keywords.cpp after preprocessing, exclusion sets of isKeyword from the AST); one tabled word (inline) with a condition checked on every run.',
+           '(keyword sets of lib/keywords.cpp after preprocessing, exclusion sets of isKeyword from the AST); one tabled word (inline) with a condition checked on every run. '
+           'R33.4: for every punctuation string of tokTypes, every token type the else-if chain of Token::update_property_info assigns on a path feasible for that constant string '
+           '(partial evaluation of the AST, mLink both ways for bracket characters) is listed in the table.',
     'C05': 'R05.2: token lists are rendered with line breaks / line numbers / file names only by the printers of the Token class. R05.3: a token line is compared with a '
            'non-token line (directive, suppression) only together with a same-file test.',
     'C10': 'R10.4: the CHAR_MIN / CHAR_MAX limit defines follow the plain-char signedness (one known finding).',
